@@ -194,3 +194,20 @@ class Shadow:
         elif name in ('into_iter_elements', 'into_iter_elements_idx', 'into_par_iter_elements',
                       'into_par_iter_elements_idx', 'drop'):
             s[a[0]] = None
+
+
+class KCase:
+    """a single call with extreme arguments (no history): `K id debug fn args...`"""
+    def __init__(self, cid, fn, args, meta=None):
+        self.id = cid
+        self.fn = fn
+        self.args = [int(a) for a in args]
+        self.debug = 1
+        self.elem = 'k'
+        self.threads = 0
+        self.delay = 0
+        self.ops = []
+        self.meta = meta or {}
+
+    def text(self):
+        return f"K {self.id} {self.debug} {self.fn} " + ' '.join(str(a) for a in self.args) + "\n"
